@@ -1068,3 +1068,88 @@ rule("D6.trim_to_string",
      "$x:id . trim ( ) . to_string ( )",
      "shim_trim_to_string ( $x )",
      "str::trim().to_string()")
+
+
+def fold_string_to_loop(toks):
+    """`let NAME = X . iter ( ) . fold ( String :: new ( ) , | mut ACC , B | { STMTS ACC } ) ;`  ->
+    `let __fin = X ; let mut ACC = String :: new ( ) ; for B in __fin . iter ( ) { STMTS } let NAME = ACC ;`
+    (the definition of Iterator::fold with a by-value accumulator that the closure returns unchanged after mutating it)"""
+    out = list(toks)
+    count = 0
+    i = 0
+    while i < len(out):
+        # find `. iter ( ) . fold ( String :: new ( ) , | mut ACC , B | {`
+        tx = [t.text for t in out[i:i + 21]]
+        if tx[:12] == [".", "iter", "(", ")", ".", "fold", "(", "String", "::", "new", "(", ")"] and tx[12:15] == [",", "|", "mut"] and \
+                tx[16] == "," and tx[18] == "|" and tx[19] == "{":
+            acc, b = tx[15], tx[17]
+            body_open = i + 19
+            body_close = match_close(out, body_open)
+            fold_close = match_close(out, i + 6)
+            if fold_close != body_close + 1 or out[body_close - 1].text != acc or out[fold_close + 1].text != ";":
+                i += 1
+                continue
+            # receiver expression X: back to the `=` of `let NAME =`
+            k = i - 1
+            depth = 0
+            while k >= 0:
+                if out[k].text in CLOSE:
+                    depth += 1
+                elif out[k].text in OPEN:
+                    depth -= 1
+                elif out[k].text == "=" and depth == 0:
+                    break
+                k -= 1
+            if k < 2 or out[k - 2].text != "let":
+                i += 1
+                continue
+            name = out[k - 1].text
+            line = out[k].line
+            recv = out[k + 1:i]
+            stmts = out[body_open + 1:body_close - 1]
+            new = T("let __fin =", line) + recv + T("; let mut %s = String :: new ( ) ; for %s in __fin . iter ( ) {" % (acc, b), line) + stmts + \
+                T("} let %s = %s ;" % (name, acc), out[fold_close].line)
+            out[k - 2:fold_close + 2] = new
+            count += 1
+            i = k - 2 + len(new)
+            continue
+        i += 1
+    return out, count
+
+
+pyrule("D2.fold_string_to_loop", fold_string_to_loop, fold_string_to_loop.__doc__)
+
+rule("D9.drop_io_write_bound",
+     "+ std :: io :: Write",
+     "",
+     "the `std::io::Write` bound of the hasher type parameter is dropped: it is used only by io::copy, which is a world shim here")
+
+rule("D6.io_copy_hasher",
+     "std :: io :: copy ( reader , & mut hasher )",
+     "shim_io_copy ( reader , & mut hasher )",
+     "std::io::copy(reader, &mut hasher): feeds every byte the reader delivers to the hasher's io::Write impl (= update)")
+
+rule("D6.bufreader_split_nl",
+     "let bufreader = BufReader :: new ( reader ) ; for line in bufreader . split ( b'\\n' )",
+     "for line in shim_reader_split_nl ( reader )",
+     "BufReader::new(reader).split(b'\\n') collected: the delimiter-free pieces of the stream, or an I/O error")
+
+rule("D6.windows_any_netbsd",
+     "line . windows ( 7 ) . any ( | window | window == b\"$NetBSD\" )",
+     "shim_contains_netbsd ( & line )",
+     "slice::windows(7).any(|w| w == b\"$NetBSD\"): the 7-byte marker occurs in the line")
+
+rule("D6.hasher_update_vec",
+     "hasher . update ( & line )",
+     "hasher . update ( line . as_slice ( ) )",
+     "Digest::update(impl AsRef<[u8]>) at &Vec<u8>")
+
+rule("D6.hasher_update_str",
+     "hasher . update ( s )",
+     "hasher . update ( s . as_bytes ( ) )",
+     "Digest::update(impl AsRef<[u8]>) at &str")
+
+rule("D8.format_hex2",
+     "& format ! ( \"{b:02x}\" )",
+     "shim_hex2 ( * b ) . as_str ( )",
+     "format!(\"{b:02x}\"): two lower-case hex digits of a byte (checked for all 256 values at run time in the thorough tier)")
